@@ -30,8 +30,19 @@ def seed_corpus(chk, root):
     samples = sorted(glob.glob(os.path.join(REPO, "resources/samples/*/*.d0t")))
     texts = [open(p, "rb").read()[:3000] for p in samples[:3]]
     texts.append(b"0 0 K40\n1\n3  0 0.1 0.2 0.3\n\n1 1.5 K40\n2\n1  0 0.1 0 0\n3 1e-9 0 0 1\n\n")
-    hostile = [b"0", b"-1", b"1e308", b"nan", b"2147483648", b"4294967296", b"", b"99", b"-2147483648", b"1e-400", b"0x10", b"inf"]
+    hostile = [b"0", b"-1", b"1e308", b"nan", b"2147483648", b"4294967296", b"", b"99", b"-2147483648", b"1e-400", b"0x10", b"inf",
+               b"-4294967294", b"-4294967295", b"-4294967293", b"4294967298"]
     k = 0
+    # targeted: a record whose particle count is -(2^32 - n) for its n particles (wraps to n in an unsigned), read from the start
+    for t in texts:
+        L = t.split(b"\n")
+        if len(L) >= 2 and L[1].strip().isdigit():
+            npart = int(L[1].strip())
+            if 0 < npart < 50:
+                L2 = list(L)
+                L2[1] = b"-%d" % (2 ** 32 - npart)
+                open(os.path.join(corp["fz_reader"], "w%03d" % k), "wb").write(bytes([0, 0]) + b"\n".join(L2))
+                k += 1
     for t in texts:
         for sm in range(6):
             open(os.path.join(corp["fz_reader"], "s%03d" % k), "wb").write(bytes([sm, (sm * 5) % 6]) + t)
